@@ -127,11 +127,22 @@ class LineProc:
     def alive(self):
         return self.p.poll() is None and not self.eof
 
-    def write(self, data):
+    def write(self, data, deadline=None):
+        """write all of data; with a deadline, a child that stops reading (busy for ever on an earlier command) raises
+        TimeoutError instead of blocking the caller for ever"""
         mv = memoryview(data)
         fd = self.p.stdin.fileno()
         while len(mv):
-            n = os.write(fd, mv[:65536])
+            if deadline is not None:
+                left = deadline - time.time()
+                if left <= 0:
+                    raise TimeoutError("child does not read its input")
+                _, w, _ = select.select([], [fd], [], min(left, 1.0))
+                if not w:
+                    continue
+                n = os.write(fd, mv[:4096])      # (PIPE_BUF-sized pieces never block once the pipe is writable)
+            else:
+                n = os.write(fd, mv[:65536])
             mv = mv[n:]
 
     def _fill(self, deadline):
@@ -330,7 +341,11 @@ class Solver:
         self.n += 1
         q = "(push 1)\n" + smt + "\n(check-sat)\n"
         try:
-            self.lp.write(q.encode())
+            self.lp.write(q.encode(), deadline=time.time() + self.timeout_ms / 1000.0 + 10)
+        except TimeoutError:
+            self.close()
+            self.counts["unknown"] += 1
+            return "unknown", None
         except (BrokenPipeError, OSError):
             self.close()
             self.counts["error"] += 1
@@ -365,6 +380,9 @@ class Solver:
             while True:
                 l = self.lp.readline(time.time() + 10)
                 if l is None:
+                    # the solver does not deliver the model (still busy): never leave it running behind the next query
+                    self.close()
+                    txt = ""
                     break
                 l = l.decode(errors="replace")
                 txt += l + "\n"
@@ -383,8 +401,8 @@ class Solver:
                 model = None
         if self.lp:
             try:
-                self.lp.write(b"(pop 1)\n")
-            except (BrokenPipeError, OSError):
+                self.lp.write(b"(pop 1)\n", deadline=time.time() + 10)
+            except (TimeoutError, BrokenPipeError, OSError):
                 self.close()
         self.t += time.time() - t0
         self.counts[ans] = self.counts.get(ans, 0) + 1
@@ -1174,6 +1192,7 @@ def explore(ctx, tpl, stats):
     sample = None
     t_start = time.time()
     t_cap = float(os.environ.get("VERIF_TEMPLATE_CAP_S", "240"))
+    t_cap = min(t_cap, max(10.0, float(os.environ.get("VERIF_RUN_DEADLINE", "inf")) - time.time()))
     while work:
         if len(seen) >= tpl.cap:
             exhaustive = False
